@@ -395,14 +395,19 @@ def _lines_inside_string_literals(code: str) -> Set[int]:
     return linenos
 
 
+def _significant_lines(code: str) -> Sequence[str]:
+    """The lines of code without blank lines and trailing whitespace."""
+    return [line.rstrip() for line in code.splitlines() if line.strip()]
+
+
 def _do_rewrite(
     source: str, rewrite: _Rewrite, *, fix_function_name: str = "", scheduled: bool = False
 ) -> str:
     """Apply one rewrite to source.
 
-    A rewrite on a line with an ignore comment is refused: the source is returned as it is. With
-    scheduled=True this test is left to the caller (_schedule_rewrites decides it per transaction, on
-    the original source).
+    A rewrite on a line with an ignore comment, and a rewrite that changes nothing but whitespace, are
+    refused: the source is returned as it is. With scheduled=True these tests are left to the caller
+    (_schedule_rewrites and _apply_rewrites decide them per transaction, on the original source).
     """
     old, new = rewrite
     start, end = _get_charnos(rewrite, source)
@@ -434,9 +439,7 @@ def _do_rewrite(
             return source
 
         # Prevent whitespace-only changes from being applied
-        new_code_lines = [line.rstrip() for line in new_code.splitlines() if line.strip()]
-        code_lines = [line.rstrip() for line in code.splitlines() if line.strip()]
-        if new_code_lines == code_lines:
+        if not scheduled and _significant_lines(new_code) == _significant_lines(code):
             return source
 
         if old.start > len(source) and new_code:
@@ -770,12 +773,37 @@ def _schedule_rewrites(
     return scheduled_rewrites
 
 
+def _replacement_text(rewrite: _Rewrite) -> str:
+    return rewrite.new if isinstance(rewrite.new, str) else core.unparse(rewrite.new)
+
+
+def _is_whitespace_only_change(source: str, rng: core.Range, rewrite: _Rewrite) -> bool:
+    """Whether the rewrite changes the text, but only its blank lines and trailing whitespace."""
+    code = source[rng.start : rng.end]
+    new_code = _replacement_text(rewrite)
+    return new_code != code and _significant_lines(new_code) == _significant_lines(code)
+
+
 def _apply_rewrites(source: str, rewrites: Sequence[Tuple[Any, Callable]]) -> str:
     original_source = new_source = source
-    for transaction, (_, rewrite) in rewrites:
-        # The ignore comments were tested by _schedule_rewrites, per transaction and on the original
-        # source. The ranges are positions in the original source: the rewrites are applied back to
-        # front, and a rewrite that joins lines may have moved an ignore comment onto this one's line.
+
+    # Whitespace-only changes are not applied. A transaction is applied as a whole or not at all, so such
+    # a rewrite takes the other rewrites of its transaction with it. This is decided on the original
+    # source, like the ignore comments in _schedule_rewrites: the rewrites are applied back to front, so
+    # the text of a rewrite's range is still the original one when its turn comes, whereas the text after
+    # it is not (an ignore comment may have moved onto its line).
+    refused = {
+        transaction
+        for transaction, (rng, rewrite) in rewrites
+        if _is_whitespace_only_change(source, rng, rewrite)
+    }
+    for transaction in sorted(refused):
+        logger.debug("Ignoring transaction {transaction}: whitespace-only change.", transaction=transaction)
+
+    for transaction, (rng, rewrite) in rewrites:
+        if transaction in refused or _replacement_text(rewrite) == source[rng.start : rng.end]:
+            continue
+
         new_source = _do_rewrite(
             new_source, rewrite, fix_function_name=transaction.group_name, scheduled=True
         )
